@@ -609,46 +609,121 @@ def _k5(run: Run, w: World) -> None:
 
 
 def _k7(run: Run, w: World) -> None:
+    """K7 / K8 by evaluation: QuantityVector.__init__ is EVALUATED (sa/gate.py) on component lists in the three kinds of coordinate system. K7: every component - however
+    many there are - reaches assert_equivalent_dimension exactly once, an angle slot against angle_type, every other one against the vector's dimension. K8: the
+    dimension the vector registers for itself is the explicit one, else that of the first non-angle component whose value is not zero/infinite/NaN, else dimensionless."""
+    from ..pyreader import Sys, static_methods
     run.rule("K7", "QuantityVector.__init__ asserts the dimension of every component (angle components against angle_type)")
-    f = Fn(w, VEC, "QuantityVector.__init__")
-    ok = False
-    detail = "no unconditional assert_equivalent_dimension(component, ...) in a loop over all components"
-    for n, c in f.calls(AED):
-        loops = [t for t, br in n.lexical_tests if t.kind == "for"]
-        if len(loops) != 1 or len(c.args) < 4:
+    run.rule("K8", "the dimension QuantityVector infers for itself comes only from a component that carries one: not an angle slot, "
+             "not a zero/infinite/NaN scale factor (is_any_dimension), so the later component check cannot refuse on magnitude or order")
+    m = run.src.need(VEC)
+    cls = next((c_ for c_ in m.tree.body if isinstance(c_, ast.ClassDef) and c_.name == "QuantityVector"), None)
+    run.require(cls is not None, "QuantityVector not found")
+    fn = next((f_ for f_ in cls.body if isinstance(f_, ast.FunctionDef) and f_.name == "__init__"), None)
+    run.require(fn is not None, "QuantityVector.__init__ not found")
+    methods = ast.Module(body=[x for x in m.tree.body if not isinstance(x, ast.ClassDef)] + [x for x in cls.body if isinstance(x, ast.FunctionDef)], type_ignores=[])
+    csm = run.src.need("symplyphysics.core.coordinate_systems.coordinate_systems")
+    statics = static_methods(next(c_ for c_ in csm.tree.body if isinstance(c_, ast.ClassDef) and c_.name == "CoordinateSystem"))
+    ANGLE = Dim.of(angle=1)
+    L, Tm = Dim.of(length=1), Dim.of(time=1)
+    ANGLE_SLOTS = {"CARTESIAN": set(), "CYLINDRICAL": {1}, "SPHERICAL": {1, 2}}
+
+    class R(GateReader):
+
+        def __init__(self):
+            super().__init__(methods, "vectors.py", depth_limit=8)
+            self.registered = []
+
+        def hook_call(self, n, env, fns):
+            f_ = dotted(n.func) or ""
+            name = f_.split(".")[-1]
+            if name == "next_id" and name not in self.functions:
+                return 7
+            if f_ in ("DimensionSymbol.__init__", "super().__init__") or (name == "__init__" and isinstance(n.func, ast.Attribute)):
+                args = [self.ev(a, env, fns) for a in n.args]
+                kw_ = {k.arg: self.ev(k.value, env, fns) for k in n.keywords if k.arg}
+                self.registered.append((args, kw_))
+                return None
+            if name == "Vector" and name not in self.functions:
+                return ("vector", [self.ev(a, env, fns) for a in n.args])
+            if name == "Quantity" and name not in self.functions and n.args:
+                v = self.ev(n.args[0], env, fns)
+                kw_ = {k.arg: self.ev(k.value, env, fns) for k in n.keywords if k.arg}
+                d_ = kw_.get("dimension")
+                return quantity(f"wrapped({v!r})", d_ if isinstance(d_, Dim) else Dim(), "finite")
+            return super().hook_call(n, env, fns)
+
+    def q(tag, dim, kind="finite"):
+        return quantity(tag, dim, kind)
+
+    cases = []
+    for kind in ("CARTESIAN", "CYLINDRICAL", "SPHERICAL"):
+        slots = ANGLE_SLOTS[kind]
+        def comp(i, dim, k_="finite", _slots=slots):
+            return q(f"c{i}", ANGLE if i in _slots else dim, k_)
+        cases += [
+            (kind, "three components", [comp(0, L), comp(1, L), comp(2, L)], None, L),
+            (kind, "a zero first", [comp(0, Tm, "zero"), comp(1, L), comp(2, L)], None, L),
+            (kind, "an infinite and a NaN first", [comp(0, Tm, "inf"), comp(1, Tm, "nan"), comp(2, L)], None, L),
+            (kind, "all zero", [comp(0, L, "zero"), comp(1, L, "zero"), comp(2, L, "zero")], None, Dim()),
+            (kind, "four components", [comp(0, L), comp(1, L), comp(2, L), q("c3", L)], None, L),
+            (kind, "one component", [comp(0, L)], None, L),
+            (kind, "explicit dimension", [comp(0, L), comp(1, L), comp(2, L)], L, L),
+            (kind, "explicit dimension, bare numbers", [3, 4, 5], L, L),
+        ]
+    reported = set()
+    for kind, label, comps, explicit, _ in cases:
+        slots = ANGLE_SLOTS[kind]
+        # the property's reading, computed from the case itself: explicit, else the first non-angle component that is not zero / infinite / NaN, else dimensionless
+        want_dim = explicit if explicit is not None else next(
+            (c_.attrs["dimension"] for i_, c_ in enumerate(comps) if isinstance(c_, Obj) and i_ not in slots and c_.attrs["scale_factor"].kind == "finite"), Dim())
+        run.ob("K7", f"{kind}:{label}")
+        run.ob("K8", f"{kind}:{label}")
+        rd = R()
+        rd.extern_static = statics
+        me = Obj("QuantityVector", {}, "self")
+        try:
+            rd.call("__init__", [me, list(comps), Sys("S" + kind, kind)], {"dimension": explicit} if explicit is not None else {})
+        except Raised as r_:
+            if "raise" not in reported:
+                reported.add("raise")
+                run.violate("K7", f"{VEC}:QuantityVector.__init__:raises", m, fn, f"QuantityVector.__init__ ({kind.lower()}, {label}) raises {r_.exc} for components of the right dimensions")
             continue
-        lp = loops[0]
-        conds = conditions_for(f.fn, stmt_of(f.fn, c), stop=lp.ast)
-        if conds != []:
-            detail = "the component assertion is conditional"
+        except MagnitudeUse as mu:
+            if "magnitude" not in reported:
+                reported.add("magnitude")
+                run.violate("K8", f"{VEC}:QuantityVector.__init__:magnitude:{norm(mu.node, 50)}", m, mu.node,
+                            f"QuantityVector.__init__ ({kind.lower()}, {label}): {mu.what} in `{norm(mu.node, 60)}` - which component fixes the vector's dimension, or whether a component is "
+                            f"checked, depends on the magnitude (a floating point zero, an infinity)")
             continue
-        si = f.slice(lp, lp.ast.iter)
-        if has_subscript(si.exprs) or "components" not in si.params:
-            detail = f"the loop iterates {norm(lp.ast.iter, 50)}, not all components"
-            continue
-        zips = [x for e in [lp.ast.iter] for x in ast.walk(e) if isinstance(x, ast.Call) and dotted(x.func) == "zip" and len(x.args) >= 2
-                and not any(k.arg == "strict" and isinstance(k.value, ast.Constant) and k.value.value is True for k in x.keywords)]
-        if zips:
-            detail = (f"the loop iterates `{norm(lp.ast.iter, 60)}`: zip stops at the shortest sequence, so components beyond it are neither checked nor kept "
-                      f"(a vector with more components than that sequence loses them silently)")
-            continue
-        tnames = {x.id for x in ast.walk(lp.ast.target) if isinstance(x, ast.Name)}
-        if not (isinstance(c.args[0], ast.Name) and c.args[0].id in tnames):
-            detail = "the assertion is not given the loop element"
-            continue
-        s3 = f.slice(n, c.args[3])
-        if "dimension" not in s3.params or "angle_type" not in s3.free:
-            detail = "the expected dimension is not (angle_type for angle components, else the vector's dimension)"
-            continue
-        if any(isinstance(x, (ast.Break, ast.Return, ast.Continue)) for s in lp.ast.body for x in ast.walk(s)):
-            detail = "the checking loop can stop early"
-            continue
-        if all(f.cfg.dominated_by(x, lambda y: y is lp) for x in f.cfg.normal_exits()):
-            ok = True
-    run.ob("K7", "component-coverage")
-    if not ok:
-        run.violate("K7", f"{f.qual}:component-coverage", f.mod, f.fn, detail)
-    run.sample({"function": f.qual})
+        # K8: the registered dimension
+        dims = [x for args, kw_ in rd.registered for x in list(args) + list(kw_.values()) if isinstance(x, Dim)]
+        if (not dims or dims[0] != want_dim) and "k8" not in reported:
+            reported.add("k8")
+            run.violate("K8", f"{VEC}:QuantityVector.__init__:inferred-dimension", m, fn,
+                        f"QuantityVector.__init__ ({kind.lower()}, {label}) registers the dimension {dims[0] if dims else 'none'!r}; the property's reading is {want_dim!r}: the explicit dimension, "
+                        f"else that of the first component that carries one (not an angle slot, not a zero / infinite / NaN value), else dimensionless")
+        # K7: one check per component, against the right dimension
+        n_q = len(comps)
+        events = list(rd.events)
+        problem = None
+        if len(events) != n_q:
+            problem = f"{len(events)} of {n_q} components reach assert_equivalent_dimension" + (" (the loop stops at the shortest of two sequences, or early)" if len(events) < n_q else "")
+        else:
+            for i, (arg, pname, fname, exp) in enumerate(events):
+                want_exp = ANGLE if i in slots else want_dim
+                orig = comps[i]
+                if isinstance(orig, Obj) and arg is not orig:
+                    problem = f"component {i} is not the object that is checked"
+                    break
+                if not (isinstance(exp, Dim) and exp == want_exp):
+                    problem = (f"component {i} is checked against {exp!r}, not against {want_exp!r} "
+                               f"({'the expected dimension is not (angle_type for angle components, else the vector dimension)'})")
+                    break
+        if problem and "k7" not in reported:
+            reported.add("k7")
+            run.violate("K7", f"{VEC}:QuantityVector.__init__:component-coverage", m, fn, f"QuantityVector.__init__ ({kind.lower()}, {label}): {problem}")
+    run.sample({"function": f"{VEC}:QuantityVector.__init__", "cases": len(cases)})
 
 
 def _flat_conditions(conds: list) -> list:
@@ -729,5 +804,4 @@ def check(run: Run) -> None:
     _k3(run, w)
     _k4(run, w)
     _k5(run, w)
-    _k7(run, w)
-    _k8(run, w)
+    _k7(run, w)  # K7 and K8, by evaluation (the CFG forms alarmed on behaviour-preserving extractions)
